@@ -6,7 +6,10 @@ accept <=> len(sig) = 48, s = sig[16..48] is a canonical scalar, and
            with R = [s]B - [c]Q computed as (-Q).mul128_add_mulgen_vartime(c, s),
            c = little-endian u128 of sig[0..16] (GLS254: the two 64-bit halves c0, c1 of c0 + c1*mu), tag = 0x52 (raw data) or 0x48 || name || 0x00.
 Stubs: Point::set_decode, Scalar::set_decode32, set_mul128_add_mulgen_vartime,
-Point::encode, BLAKE2s compression function (uninterpreted)."""
+Point::encode, BLAKE2s compression function (uninterpreted).
+Key exchange: props/C09_ecdh.py.  Signing side (sign / sign_seeded / sign_randomized produce
+cb || encode(k + d*c') with the same challenge spec function, and the real verifier run on the
+signer's symbolic output returns true): props/C09_sign.py (`--only sign`)."""
 import time
 from engines.llsym.build import build, Driver
 from engines.llsym import terms as T
